@@ -12,12 +12,13 @@
 // set (Indices()) == the model's, then a sweep of every query kind over retained, pruned and
 // never-inserted roots; later blocks, votes and heads are compared as in C09.
 //
-// Sensitivity (tools/trymut.py, quick tier, each CAUGHT):
+// Sensitivity (tools/trymut.py, quick tier, each CAUGHT; they target the repaired OnPrune, so
+// DESIGN.md's "indexOffset++ dropped" became "indices not re-based"):
 //
 //	proto_array.go  OnPrune: `delete(pr.blockSlots, p.node.Ref.Root)` dropped               (pruned roots stay known)
-//	proto_array.go  OnPrune: `_, canonical := canonicalNodes[i]` -> `canonical = !canonical` (flag inverted)
-//	proto_array.go  OnPrune: `newIndices[i] = NodeIndex(remaining)` -> `NodeIndex(i)`        (indices not re-based; the repaired tree's successor of "indexOffset++ dropped")
-//	proto_array.go  OnPrune: `parent >= anchorIndex &&` dropped from the keep rule           (ancestors... kept)
+//	proto_array.go  OnPrune: `delete(pr.indices, p.node.Ref)` dropped                        (pruned nodes stay indexed)
+//	proto_array.go  OnPrune: `prunedNode{canonical, ...}` -> `prunedNode{!canonical, ...}`   (flag inverted)
+//	proto_array.go  OnPrune: `newIndices[i] = NodeIndex(remaining)` -> `NodeIndex(i)`        (indices not re-based)
 //	forkchoice.go   UpdateJustified: `fc.pin = nil` dropped                                  (pin survives finalization)
 //	forkchoice.go   updateJustified: `|| fc.finalized.Epoch > finalized.Epoch` dropped       (older finalized epoch accepted)
 //	forkchoice.go   UpdateJustified: no-op test `&&` -> `||`                                 (newer pair ignored)
@@ -44,7 +45,7 @@ func TestCheck(t *testing.T) {
 			"prune:while-pinned", "prune:unpinned", "prune:non-canonical-nodes", "head:after-prune", "upd:noop", "upd:applied-justified-only", "upd:refused:finalized-unknown", "upd:refused:justified-unknown",
 			"upd:refused:justified-before-finalized", "upd:refused:trigger-unknown", "upd:refused:trigger-outside-pin", "upd:refused:finalized-conflicting"},
 		SampleTags: []string{"prune:sink-failed-partway", "prune:anchor-gap-slot-node", "prune:anchor-block-node", "prune:nil-sink", "upd:refused:trigger-outside-pin", "prune:reports-leftovers-of-failed-prune"},
-		Quick:      2000, Thorough: 40000,
+		Quick:      10000, Thorough: 200000,
 		Sweep: true,
 		Tour:  fcsim.TourC10(),
 	})
